@@ -43,6 +43,12 @@ def block(s, rng):
 
 
 def cases(rng, tier):
+    # objects built from sequence files (two per block)
+    for c in gen.file_cases(rng, 12 if tier == "quick" else 100, ['kappa', 'omega', 'scd']):
+        yield c
+    # objects handed back by the library's own moves / shuffles (also with frozen sets, also from a parent whose cache is warm)
+    for l in core.childq_cases(rng, 90 if tier == "quick" else 600, ['kappa', 'delta', 'scd', 'omega', 'dmax']):
+        yield Case([l], {"kind": "object-from-move"})
     # the property's own queries AFTER other public calls on the same object (same answers as on a fresh one)
     for c in gen.after_calls_cases(rng, 16 if tier == "quick" else 120, ['kappa', 'delta', 'dmax', 'scd', 'omega']):
         yield c
@@ -68,7 +74,10 @@ def cases(rng, tier):
 
 
 def judge(case, reals, gens, specs):
-    if case.tags.get("kind") in ("after-other-calls", "after-calls-on-another-object"):
+    if reals and reals[0][0] == "childq":
+        ok_c, why = core.judge_childq(reals[0])
+        return [] if ok_c else [("violation", 0, why)]
+    if case.tags.get("kind") in ("after-other-calls", "after-calls-on-another-object", "object-from-file"):
         from ..runner import default_judge
         return default_judge(None, case, reals, gens, specs)
     out = []
